@@ -142,7 +142,7 @@ fn live_crossing_case(c: &PolicyCase, env: &Env, dir: &std::path::Path, base_cfg
         "policy": "always",
         "check_interval_ms": interval_ms,
         "check_jitter": jitter,
-        "triggers": { "fragmentation": 1.0, "dead_bytes": if by_deletes { 600 } else { 40 } },
+        "triggers": { "fragmentation": 1.0, "dead_bytes": if by_deletes { 150 } else { 40 } },
     });
     let t0 = Instant::now();
     let kv = match catch(|| config_json(base_cfg, dir, Some(merge), None).open()) {
@@ -156,8 +156,10 @@ fn live_crossing_case(c: &PolicyCase, env: &Env, dir: &std::path::Path, base_cfg
     // cross the trigger well inside the first sleep
     std::thread::sleep(Duration::from_millis(100));
     if by_deletes {
-        // five values of 200 bytes, four of them deleted: > 900 dead bytes of values (the four
-        // tombstones themselves are some 80 bytes) against a trigger of 600
+        // five values of 200 bytes, four of them deleted.  The trigger is per file and the case's
+        // max_file_size may put every value into a file of its own, so the trigger (150) is below
+        // the size of ONE deleted entry (227 bytes) and above everything four tombstones (19 bytes
+        // each) can add up to
         for i in 0..5u8 {
             let _ = h.set(Bytes::from(vec![b'k', i]), Bytes::from(vec![b'v'; 200]));
         }
@@ -559,7 +561,7 @@ pub fn prop() -> Prop<PolicyCase> {
     Prop {
         id: "C18",
         level: "exploration",
-        rule: "Cases: a write pattern (2-23 keys set, 0-23 overwritten, 0-7 deleted, small or 2 GiB max_file_size) written with all background activity off; an independent decoder measures the worst per-file dead bytes and fragmentation; the store is then reopened with policy never or always, check interval 20-200 ms, jitter 0-1, and triggers placed relative to the measured values: far below (exceeded), exactly at the measured value (not exceeded - the trigger rule is a strict 'exceeds'), just below (exceeded), far above. Oracles: never -> no merge evidence (no new hint file, no data file removed) during 6 intervals; always + exceeded -> merge evidence within interval*(1+jitter)+2 s with no client action, then a quiet period; always + not exceeded -> none during 6 intervals. A fifth (rare, 2-3 s per case) mode opens an empty store with a check interval of 1.5-2.4 s, crosses the dead-bytes trigger by live writes during the first sleep (overwrites of one key, or deletes of four keys with 200-byte values against a trigger of 600 bytes) and requires the merge with the first tick after the crossing (interval*(1+jitter)+0.8 s after the open). A fourth mode fails the first background merge pass once (transient ENOSPC injected by the shim when it creates its hint file) and requires a completed merge within 3 intervals + 2 s, since the triggers stay exceeded. Interval sync (10-100 ms; in most cases with 1-3 threads writing continuously so that the writer mutex is busy when a tick comes): under the LD_PRELOAD recorder the active file must be fsynced at least 3 times in a window of 10 intervals (at least 500 ms). In half of the cases every configuration is built with Config::default() and the public setters instead of being deserialized (only the merge policy, whose type is not exported, always comes through serde), and in every case both builds of one generated settings record must render identically with Debug. Non-trivial: a trigger within one unit of the measured value, a policy-never case, an observed merge followed by a quiet period, or a sync window; distinct = distinct hash of the case.",
+        rule: "Cases: a write pattern (2-23 keys set, 0-23 overwritten, 0-7 deleted, small or 2 GiB max_file_size) written with all background activity off; an independent decoder measures the worst per-file dead bytes and fragmentation; the store is then reopened with policy never or always, check interval 20-200 ms, jitter 0-1, and triggers placed relative to the measured values: far below (exceeded), exactly at the measured value (not exceeded - the trigger rule is a strict 'exceeds'), just below (exceeded), far above. Oracles: never -> no merge evidence (no new hint file, no data file removed) during 6 intervals; always + exceeded -> merge evidence within interval*(1+jitter)+2 s with no client action, then a quiet period; always + not exceeded -> none during 6 intervals. A fifth (rare, 2-3 s per case) mode opens an empty store with a check interval of 1.5-2.4 s, crosses the dead-bytes trigger by live writes during the first sleep (overwrites of one key, or deletes of four keys with 200-byte values against a trigger of 150 bytes - less than one deleted entry, more than four tombstones) and requires the merge with the first tick after the crossing (interval*(1+jitter)+0.8 s after the open). A fourth mode fails the first background merge pass once (transient ENOSPC injected by the shim when it creates its hint file) and requires a completed merge within 3 intervals + 2 s, since the triggers stay exceeded. Interval sync (10-100 ms; in most cases with 1-3 threads writing continuously so that the writer mutex is busy when a tick comes): under the LD_PRELOAD recorder the active file must be fsynced at least 3 times in a window of 10 intervals (at least 500 ms). In half of the cases every configuration is built with Config::default() and the public setters instead of being deserialized (only the merge policy, whose type is not exported, always comes through serde), and in every case both builds of one generated settings record must render identically with Debug. Non-trivial: a trigger within one unit of the measured value, a policy-never case, an observed merge followed by a quiet period, or a sync window; distinct = distinct hash of the case.",
         assumptions: &[
             "positive deadlines carry 2 s of slack and are re-tried once before being reported; negative windows are 6 check intervals",
             "the merge window policy is not generated (the property does not mention it)",
